@@ -13,16 +13,17 @@ def Malformed (fs : List Frame) : Prop := ∃ e, parse fs = .error e
 
 /-- What may be on the wire / in a receive queue addressed to `dst` when malformed lists are
 injected and rejected lists still acknowledge their leading Syn: genuine data frames, any Ack,
-local messages, malformed lists. -/
+local messages, malformed lists. Genuine data frames come in both wire shapes (`dataFrames`). -/
 def PktOkM (s : Sys) (dst : Nat) (fs : List Frame) : Prop :=
   (∃ a i m h, fs = dataFrames i a m ∧ (s.ep a).log i = some (h, m) ∧ (s.ep a).hosts0 h = some dst)
   ∨ (∃ i, fs = ackFrames i)
   ∨ (∃ m, fs = [Frame.msg (Msg.app m)] ∧ m ∈ (s.ep dst).locals)
   ∨ Malformed fs
 
-/-- an accepted message is genuine -/
+/-- an accepted message is genuine (under a Syn: the message sent under it, in the form its wire
+shape is parsed to — `bodyOf`) -/
 def DelOkM (s : Sys) (b : Nat) (d : Delivery) : Prop :=
-  (∃ i a h m, d = ⟨some (i, a), Parsed.msg (Msg.app m)⟩ ∧ (s.ep a).log i = some (h, m) ∧
+  (∃ i a h m, d = ⟨some (i, a), bodyOf m⟩ ∧ (s.ep a).log i = some (h, m) ∧
       (s.ep a).hosts0 h = some b)
   ∨ (∃ m, d = ⟨none, Parsed.msg (Msg.app m)⟩ ∧ m ∈ (s.ep b).locals)
 
@@ -413,11 +414,12 @@ theorem collect_invM {s : Sys} (hi : InvM s) (b : Nat) : InvM (collect s b) := b
                 have hok := hi.wire_inbox c fs (by rw [hin]; exact List.mem_cons_self)
                 rcases hok with ⟨a, i, m, h, rfl, hl, h0⟩ | ⟨i, rfl⟩ | ⟨m, rfl, hmem⟩ | ⟨e, he⟩
                 · -- genuine data frame
-                  have hp : p = Parsed.msg (Msg.app m) ∧ (recvOne (s.ep c).acked (dataFrames i a m)).mark = some (i, a) := by
+                  have hp : p = bodyOf m ∧ (recvOne (s.ep c).acked (dataFrames i a m)).mark = some (i, a) := by
+                    rw [recvOne_dataFrames] at hres ⊢
                     cases hack : (s.ep c).acked i a with
-                    | true => simp [recvOne, dataFrames, hack] at hres
+                    | true => simp [hack] at hres
                     | false =>
-                      simp [recvOne, dataFrames, hack, parseBody, Except.map] at hres ⊢
+                      simp [hack] at hres ⊢
                       exact hres.symm
                   rw [hp.1, hp.2]
                   exact (DelOkM.mono hm (Or.inl ⟨i, a, h, m, rfl, hl, h0⟩))
